@@ -23,7 +23,9 @@
    key, does nothing / loads a value / opens an object / opens an array: VSkip / VGet / VObj / VArr — what
    SerializeMapImpl does), all nested to any depth and in any order — repeated keys, absent keys, keys requested
    out of order (the wrap-around with its rewind), arrays left partly read included.  NOT re-expressed as a client:
-   byte arrays (RBin / ABin / VBin / VBinArr) and the guarded / throwing requests (ATry / AThrow / VThrow).
+   byte arrays (RBin / ABin / VBin / VBinArr) and the guarded request (ATry).  AThrow / VThrow (the caller's own code
+   throws) are admitted: the client stops there with Some None; an error-free history never executes one.
+   scope_client_arr n h: the same for a history h on a root ARRAY (OpenArrayScope at the root).
    Further operations of the client:
      OpenArrayScope            RdArr
      array element requests    CheckEnd (no reader call), then the typed read / RdMap / RdArr
@@ -104,6 +106,28 @@ Proof.
 Qed.
 Print Assumptions T_C03_stream_equals_memory.
 
+(* the same for a ROOT ARRAY (a sequence container / tuple at the root), read to the end or not *)
+Theorem T_C03_stream_equals_memory_arr : forall K narrow widen o data vs rest h toks c vs' fuel,
+  (8 <= K)%nat -> fits_streamoff data -> bytes_ok data -> (length data < fuel)%nat ->
+  decode data = Some (MArr vs, rest) -> doc_ok (MArr vs) = true ->
+  frag_areqs h = true ->
+  spec_areqs narrow widen o vs h = ((toks, None, c), vs') ->
+  mps_client_bsr narrow widen K (stream_of data true) fuel o (scope_client_arr (S (length data)) h) =
+    Ok (fst (str_client_run narrow widen data o (scope_client_arr (S (length data)) h)),
+        Some (Some (KOpen :: toks ++ [KClose], N.of_nat (length data - length rest), false))) /\
+  run_arr_root narrow widen o data h = Done (KOpen :: toks ++ [KClose]) rest false.
+Proof.
+  intros K narrow widen o data vs rest h toks c vs' fuel HK Hf Hb Hfuel Hd Hok Hfr Hs.
+  pose proof (arr_root_refines narrow widen o data vs rest h toks c vs' Hb Hd Hok Hs) as Hrun.
+  split; [|exact Hrun].
+  rewrite (client_on_chunked_stream K data narrow widen fuel o _ (scope_client_arr (S (length data)) h) HK Hf Hb Hfuel
+             (scope_client_arr_seeks_ok narrow widen o data _ h data)).
+  pose proof (scope_client_arr_run narrow widen o data K HK Hf Hb (S (length data)) h _ rest (Nat.lt_succ_diag_r _) Hfr Hrun) as E.
+  destruct (str_client_run narrow widen data o (scope_client_arr (S (length data)) h)) as [tr res]. cbn [snd fst] in *. subst res.
+  reflexivity.
+Qed.
+Print Assumptions T_C03_stream_equals_memory_arr.
+
 (* not vacuous: { "k":5, 7:{ "x":nil }, "arr":[1,"s"], "b":bin(1,2) } followed by 0x2A, chunk size 8; the array first
    (one of its two elements read, IsEnd asked, the rest passed by the destructor), then the nested object (found only
    after a wrap-around: rewind to 1; in it VisitKeys: rewind to the child's mStartPos = 6, then a key found after a
@@ -144,7 +168,7 @@ Qed.
 Print Assumptions T_C03s_stream_example.
 
 (* NOT stated here:
-   - byte arrays (RBin / ABin / VBin / VBinArr) and guarded / throwing requests (ATry / AThrow / VThrow) as a client:
+   - byte arrays (RBin / ABin / VBin / VBinArr) and guarded requests (ATry) as a client:
      for those the stream reader under the scopes is tied to the scope model by the correspondence runs (kinds s, S
      of C03) only;
    - histories that end in an error: the client's run ends at the reader's exception; what the unwinding
